@@ -95,13 +95,18 @@ class Affine(Suite):
                     t["xyz"] = [[p[i] - off[i] for i in range(3)] for p in t["xyz"]]
                 for kind, a in _kinds(rng):
                     center = rng.choice(["root", "origin", "default", "soma"]) if kind not in ("translate", "translate_origin") else "default"
-                    out.append({"class": f"{kind}/{center}", "tree": t, "kind": kind, "a": a, "center": center})
+                    out.append({"class": f"{kind}/{center}", "tree": t, "kind": kind, "a": a, "center": center, "warm": rng.random() < 0.5})
         return out
 
     def run(self, case):
         t = gen.make_tree(case["tree"])
         before = {k: v.copy() for k, v in t.ndata.items()}
         tr = _transform(case["kind"], case["a"], case["center"])
+        if case.get("warm"):
+            # the same transform object used on another neuron first (transform objects are reusable:
+            # `Transforms(...)`, population maps); it must not remember anything about that neuron
+            w = dict(case["tree"]); w["xyz"] = [[p[0] + 17.0, p[1] - 9.0, p[2] + 4.0] for p in w["xyz"]]
+            tr(gen.make_tree(w))
         y = tr(t)
         res = {"xyz": y.xyz().astype(np.float64).tolist(), "pid": y.pid().tolist(), "type": y.type().tolist(),
                "r": y.r().astype(np.float64).tolist(), "id": y.id().tolist(),
